@@ -52,9 +52,13 @@ func (d *Delay) UnmarshalXML(dec *xml.Decoder, start xml.StartElement) error {
 	for _, attr := range start.Attr {
 		switch attr.Name.Local {
 		case "from":
-			d.From, err = jid.Parse(attr.Value)
-			if err != nil {
-				return err
+			// The from attribute is optional and is written as the empty string
+			// when no sender is set.
+			if attr.Value != "" {
+				d.From, err = jid.Parse(attr.Value)
+				if err != nil {
+					return err
+				}
 			}
 			foundFrom = true
 		case "stamp":
